@@ -231,6 +231,8 @@ def r14_5(ctx):
             shapes = [
                 f"msg = self.ctx.msg()\nif 'date' not in msg:\n    return False\nv = parsedate(msg['date']).date()\nreturn v {sym} {arg}",
                 f"msg = self.ctx.msg()\nif 'date' in msg:\n    v = parsedate(msg['date']).date()\n    return v {sym} {arg}\nreturn False",
+                # the header lookup behind an Optional-returning helper (folded into the caller by asv/inline.py)
+                f"msg = self.ctx.msg()\nv = parsedate(msg['date']).date() if 'date' in msg else None\nif v is None:\n    return False\nreturn v {sym} {arg}",
             ]
         else:
             shapes = [f"v = self.ctx.msg_size()\nreturn v {sym} {arg}"]
